@@ -204,6 +204,7 @@ pub(crate) fn compute(
         ),
         &evaluations.z_eval,
         z_poly,
+        domain,
     );
 
     let domain_size = domain.size();
